@@ -45,13 +45,16 @@ struct Tier {
     /// histories up to this length also sweep the requests that violate at the reference level
     full_sweep_depth: usize,
     stdio_depth: usize,
+    /// true: every suspicious step gets a stdio session for every follow-up class; false: one
+    /// class per suspicious step, rotating (in-process: always all classes)
+    stdio_all_follow_up_classes: bool,
 }
 
 fn tier_bounds(thorough: bool) -> Tier {
     if thorough {
-        Tier { depth: 4, full_sweep_depth: 2, stdio_depth: 3, stdio_follow_up_docs: 2 }
+        Tier { depth: 4, full_sweep_depth: 2, stdio_depth: 2, stdio_all_follow_up_classes: true, stdio_follow_up_docs: 2 }
     } else {
-        Tier { depth: 3, full_sweep_depth: 2, stdio_depth: 2, stdio_follow_up_docs: 1 }
+        Tier { depth: 3, full_sweep_depth: 2, stdio_depth: 2, stdio_all_follow_up_classes: false, stdio_follow_up_docs: 1 }
     }
 }
 
@@ -278,7 +281,9 @@ struct StdioTotals {
     died: u64,
 }
 
-fn run_sessions<F: Fn(usize) -> Vec<Session> + Sync>(ls: &Path, uris: &[lsp_types::Url; 2], n: usize, make: F, bag: &mut Bag, tot: &mut StdioTotals) {
+/// `pin`: which pacings run with the server pinned to one CPU (see `stdio::run_session`).
+fn run_sessions<F: Fn(usize) -> Vec<Session> + Sync>(ls: &Path, uris: &[lsp_types::Url; 2], n: usize, make: F, pin: &[Pacing], bag: &mut Bag, tot: &mut StdioTotals) {
+    let cpus = std::thread::available_parallelism().map_or(1, |n| n.get());
     // a machinery failure stops the remaining sessions; those in flight end normally, so no
     // server process is left behind
     let failed: std::sync::Mutex<Option<String>> = std::sync::Mutex::new(None);
@@ -296,7 +301,8 @@ fn run_sessions<F: Fn(usize) -> Vec<Session> + Sync>(ls: &Path, uris: &[lsp_type
                     if failed.lock().unwrap().is_some() {
                         return (sessions, compared, died, vs);
                     }
-                    let r = match stdio::run_session(ls, uris, &s, pacing) {
+                    let cpu = pin.contains(&pacing).then(|| rayon::current_thread_index().unwrap_or(0) % cpus);
+                    let r = match stdio::run_session(ls, uris, &s, pacing, cpu) {
                         Ok(r) => r,
                         Err(e) => {
                             let evs: Vec<Event> = s.steps.iter().map(|st| st.event.clone()).collect();
@@ -325,6 +331,13 @@ fn run_sessions<F: Fn(usize) -> Vec<Session> + Sync>(ls: &Path, uris: &[lsp_type
             (sessions, compared, died, vs)
         })
         .collect());
+    if std::env::var("VLSP_RUSAGE").is_ok() {
+        for (who, name) in [(libc::RUSAGE_SELF, "self"), (libc::RUSAGE_CHILDREN, "children")] {
+            let mut ru: libc::rusage = unsafe { std::mem::zeroed() };
+            unsafe { libc::getrusage(who, &mut ru) };
+            eprintln!("# rusage {name}: user {}.{:03}s sys {}.{:03}s", ru.ru_utime.tv_sec, ru.ru_utime.tv_usec / 1000, ru.ru_stime.tv_sec, ru.ru_stime.tv_usec / 1000);
+        }
+    }
     if let Some(e) = failed.into_inner().unwrap() {
         vcommon::machinery_failure(&e);
     }
@@ -434,7 +447,9 @@ fn check(dir: &Path) {
     // 4. stdio replay
     let mut tot = StdioTotals { sessions: 0, compared: 0, died: 0 };
     let stdio_hist = notification_histories(if skip.contains("sweeps") { 0 } else { tier.stdio_depth });
-    run_sessions(&ls, &uris, stdio_hist.len(), |k| sweep_session(&uris, &tabs, &stdio_hist[k]).into_iter().collect(), &mut bag, &mut tot);
+    // lock-step sessions run with the server pinned to one CPU, burst sessions with its threads
+    // truly parallel
+    run_sessions(&ls, &uris, stdio_hist.len(), |k| sweep_session(&uris, &tabs, &stdio_hist[k]).into_iter().collect(), &[Pacing::LockStep], &mut bag, &mut tot);
     let t_sweep = t0.elapsed().as_secs_f64();
     eprintln!("# stdio sweeps done after {t_sweep:.1}s: {} sessions, {} answers compared", tot.sessions, tot.compared);
     let stdio_suspicious: Vec<_> = suspicious.iter().filter(|s| s.0 < tier.stdio_follow_up_docs).collect();
@@ -444,8 +459,13 @@ fn check(dir: &Path) {
         if skip.contains("followups") { 0 } else { stdio_suspicious.len() },
         |k| {
             let (doc, ti, r) = stdio_suspicious[k];
-            follow_up_sessions(&uris, &tabs, *doc, *ti, r)
+            let mut sessions = follow_up_sessions(&uris, &tabs, *doc, *ti, r);
+            if !tier.stdio_all_follow_up_classes {
+                sessions = vec![sessions.swap_remove(k % sessions.len())];
+            }
+            sessions
         },
+        &[Pacing::LockStep],
         &mut bag,
         &mut tot,
     );
@@ -487,6 +507,7 @@ fn check(dir: &Path) {
         "bounds": {
             "documents": 2, "texts": ALPHABET.len(), "notification_history_depth": tier.depth,
             "full_sweep_depth": tier.full_sweep_depth, "stdio_history_depth": tier.stdio_depth,
+            "stdio_all_follow_up_classes_per_suspicious_step": tier.stdio_all_follow_up_classes,
             "stdio_follow_up_documents": tier.stdio_follow_up_docs,
             "positions": format!("every line, characters 0..=len+{}, plus line count with characters 0,1", texts::PAST_END),
             "requests_per_text": requests_per_text,
@@ -620,13 +641,15 @@ fn replay(dir: &Path, path: &Path) -> i32 {
         if !o.clean() && origin.is_none() {
             origin = Some(origin_key(e, o));
         }
-        steps.push(Step { event: e.clone(), expect, idle_after: true });
+        steps.push(Step { event: e.clone(), expect, idle_after: h.len() <= 50 });
     }
     let session = Session { steps, origin };
     let ls = ls_path();
     for pacing in [Pacing::Burst, Pacing::LockStep] {
-        let r = stdio::run_session(&ls, &uris, &session, pacing).unwrap_or_else(|e| vcommon::machinery_failure(&e));
-        println!("#   stdio {pacing:?}: exit {:?}, {} answers compared, {} finding(s)", r.exit_code, r.compared, r.findings.len());
+        let pin = std::env::var("VLSP_PIN").ok().and_then(|s| s.parse().ok());
+        let t = std::time::Instant::now();
+        let r = stdio::run_session(&ls, &uris, &session, pacing, pin).unwrap_or_else(|e| vcommon::machinery_failure(&e));
+        println!("#   stdio {pacing:?}: exit {:?}, {} answers compared, {} finding(s), {:.3}s", r.exit_code, r.compared, r.findings.len(), t.elapsed().as_secs_f64());
         for f in r.findings {
             bag.add(Violation { key: f.key, detail: format!("[stdio, pacing {pacing:?}] {}", f.detail), history: h.clone() });
         }
